@@ -278,6 +278,21 @@ pub fn run(opts: &Opts) -> Report {
         for a in &rs {
             let known: Option<TextSelection> = bres_item.textselection(&Offset::simple(a.0, a.1)).ok().map(|t| t.inner().clone());
             let ta = match known { Some(t) if t.handle().is_some() => t, _ => continue };
+            // the same range without a handle (what `intersection()` hands out), against the known selection
+            if a.0 < a.1 {
+                if let Some((unbound, _, _)) = ta.intersection(&ta) {
+                    if unbound.handle().is_none() {
+                        for op in &ops {
+                            let o = op.to_op();
+                            let (g1, g2) = (guarded(|| ta.test(&o, &unbound, bres)), guarded(|| unbound.test(&o, &ta, bres)));
+                            let w = naive(op, *a, *a, &ctx.text);
+                            rep.count("tt:known-vs-copy-without-handle");
+                            let line = format!("known {}-{} {} the same range without a handle", a.0, a.1, op.proto());
+                            if g1 != Ok(w) || g2 != Ok(w) { rep.fail(if g1.is_err() || g2.is_err() { "panic" } else { "oracle" }, &format!("pair-known-vs-copy-without-handle/{}", op.sig()), vec![format!("text={:?}", text), line], &w.to_string(), &format!("{} / {} (the other way round)", b2s(&g1), b2s(&g2))); }
+                        }
+                    }
+                }
+            }
             for c in &rs {
                 let tc = ts(bres, *c);
                 for op in &ops {
